@@ -23,7 +23,7 @@ RULE = (
     'PEATCLSM specific yield x spline and PEATCLSM transmissivity; '
     'thorough: all 77 pairs of 11 specific-yield sets and 7 transmissivity '
     'sets) x (ET, '
-    'curvature) in {(0, c), (e, 0), (e, c)} x 5 level grids (one of them 1e5 mm down) below the '
+    'curvature) in {(0, c), (e, 0), (e, c)} x 6 level grids (one of them 1e5 mm down, one a single level) below the '
     'transmissivity ceiling x {ascending, descending} x {grid, every cell '
     'halved} x 2 requested means through the real compute_recession_curve.  '
     'Oracle: cell increments = independent composite Gauss-Legendre '
@@ -53,6 +53,7 @@ GRIDS = {
     'data-range': [15.5, 17.0, 18.25, 19.0, 22.5, 27.0],
     'across-knots': [-40.0, -5.5, 0.0, 14.0, 16.0, 24.0, 36.0],
     'two-levels': [18.0, 21.0],
+    'one-level': [18.0],
     'fine': [12.0 + 0.5 * i for i in range(30)],
     # half-millimetre cells a hundred metres down: a cell is 5e-6 of its level
     'far-below': [-100003.0 + 0.5 * i for i in range(8)],
@@ -77,7 +78,7 @@ def decoy():
 
 
 def BOUND(tier):
-    return ('%d parameter sets x 4 (ET, curvature) x 5 grids x 2 directions '
+    return ('%d parameter sets x 4 (ET, curvature) x 6 grids x 2 directions '
             'x 2 refinements x 2 means at function level; 3 datasets x 4 '
             'parameter files x 2 curvatures x 2 output forms at command '
             'level' % len(param_pairs(tier)))
